@@ -27,7 +27,7 @@ for ID in "$@"; do
     python3 - "$d" "$ID" "$dir" "$code" "$keys" "$SRC" "$K" <<'PY'
 import json,sys
 d,pid,dir_,code,keys,src,k=sys.argv[1:8]
-json.dump({'property':pid,'origin':'independent sub-agent (round 2) given only the property text, a scratch worktree and the list of ideas already used','source':'%s/%s/_seed/patch%s.diff'%(src,pid,k),
+json.dump({'property':pid,'origin':'independent sub-agent (round '+__import__('os').environ.get('ROUND','4')+') given only the property text, a scratch worktree and the list of ideas already used','source':'%s/%s/_seed/patch%s.diff'%(src,pid,k),
  'demo_package_dir':dir_,'demo_file':'demo_test.go.txt (copy as zz_seed_demo_test.go into demo_package_dir and run go test -run on its Test functions)',
  'confirmed':'tools/confirm_seed.sh: repository suite passes with the patch; demo fails with the patch; demo passes without it',
  'needs_to_manifest':'see notes.md','ran':'tools/seed_matrix.sh own (quick tier of the own property on a scratch worktree)',
